@@ -9,6 +9,7 @@ import CoapVerif.Lemmas.MsgLayerW
 import CoapVerif.Lemmas.MsgLayerWRefuse
 import CoapVerif.Lemmas.ObserveWait
 import CoapVerif.Lemmas.ObserveWaitInv
+import CoapVerif.Lemmas.MsgLayerI
 /-
 C06 — the retransmission queue: every pending message is (re)transmitted on the RFC 7252 §4.2 schedule and
 ends in exactly one outcome.
@@ -1905,5 +1906,199 @@ example : let evs : List Event := [.reg 0 0 1 0 true 1, .reg 1 1 2 0 true 1, .ch
     st0.sendq.map (·.due) = [3500, 3500] ∧ st0.now = 1500 ∧
     (io { st0 with now := st0.now + 2000 }).1.sendq.map (·.due) = [7500, 7500] ∧
     waitOf (io { st0 with now := st0.now + 2000 }).1 2 = 4000 := by decide
+
+/-! ## (13) ICMP events (round R06c; `Model/MsgLayerI.lean`, `Lemmas/MsgLayerI.lean`, `Coap.MsgI`)
+
+An ICMP error read from the socket of a client session (`recv()` → ECONNREFUSED → `coap_session_disconnected_lkd(session,
+COAP_NACK_ICMP_ISSUE)`) is REPORTED to the NACK handler and is not an outcome: the message stays queued, keeps its
+schedule and later ends with its real outcome. -/
+
+open Coap.Msg Coap.MsgI in
+/-- **icmp_report_changes_nothing_but_the_report**: for EVERY state, session and block-layer record, the
+COAP_NACK_ICMP_ISSUE path of `coap_session_disconnected_lkd` leaves clock, send queue (nodes, deadlines, retransmission
+counters), every session (`con_active`, state, delay queue) exactly as they were; the output list grows by ONE entry, the
+report — about the first node of the session in the send queue if there is one (the delay queue is not looked at), else
+about the `lg_crcv` record, else with `sent = NULL` and id 0. -/
+theorem icmp_report_changes_nothing_but_the_report (l : L) (s : Nat) (lg : Option Nat) :
+    (icmpReport l s lg).now = l.now ∧ (icmpReport l s lg).q = l.q ∧ (icmpReport l s lg).sess = l.sess ∧
+    ∃ mid known, (icmpReport l s lg).out = Out.nack l.now s .icmp mid known :: l.out ∧
+      (∀ n, l.q.nodes.find? (fun n => n.sess = s) = some n → mid = n.mid ∧ known = true) ∧
+      (l.q.nodes.find? (fun n => n.sess = s) = none → ∀ m, lg = some m → mid = m ∧ known = true) ∧
+      (l.q.nodes.find? (fun n => n.sess = s) = none → lg = none → mid = 0 ∧ known = false) := by
+  unfold icmpReport
+  cases hf : l.q.nodes.find? (fun n => n.sess = s) with
+  | some n => exact ⟨rfl, rfl, rfl, n.mid, true, rfl, by simp, by simp, by simp⟩
+  | none =>
+    cases lg with
+    | some m => exact ⟨rfl, rfl, rfl, m, true, rfl, by simp, by simp, by simp⟩
+    | none => exact ⟨rfl, rfl, rfl, 0, false, rfl, by simp, by simp, by simp⟩
+
+open Coap.Msg Coap.MsgI in
+/-- the report C08's extended model produces (`Coap.MsgX.icmp`) is this function with no `lg_crcv` record -/
+theorem icmp_report_is_x_icmp (l : L) (s : Nat) : icmpReport l s none = Coap.MsgX.icmp l s := by
+  unfold icmpReport Coap.MsgX.icmp
+  cases l.q.nodes.find? (fun n => n.sess = s) <;> rfl
+
+open Coap.Msg Coap.MsgI in
+/-- an ICMP report is not an outcome: the number of outcome NACKs (TOO_MANY_RETRIES / RST about a sent PDU) and of
+transmissions of every message is what it was -/
+theorem icmp_report_is_not_an_outcome (l : L) (s : Nat) (lg : Option Nat) (s' mid : Nat) :
+    Coap.Sim.nackC s' mid (icmpReport l s lg).out = Coap.Sim.nackC s' mid l.out ∧
+    Coap.Sim.txC s' mid (icmpReport l s lg).out = Coap.Sim.txC s' mid l.out := by
+  have h : (icmpReport l s lg).out.filter keep = l.out.filter keep := congrArg L.out (strip_icmpReport l s lg)
+  exact ⟨nackC_congr h s' mid, txC_congr h s' mid⟩
+
+open Coap.Msg Coap.MsgI in
+/-- **icmp_run_is_base_run**: for EVERY state and EVERY event list with ICMP events anywhere (whole base alphabet, hold /
+disconnect included): the run ends with the clock, the send queue (deadlines, counters), the sessions (`con_active`,
+delay queues) of the base model's run over `projI` — the same events with each ICMP event on an open socket replaced by the
+I/O step that ends `coap_io_do_epoll` (on a closed socket: by nothing) — and, ICMP reports and logged waits aside, with the
+same output list in the same order. -/
+theorem icmp_run_is_base_run (l : L) (evs : List EvI) :
+    (runI l evs).now = (run l (projI l evs)).now ∧ (runI l evs).q = (run l (projI l evs)).q ∧
+    (runI l evs).sess = (run l (projI l evs)).sess ∧
+    (runI l evs).out.filter keep = (run l (projI l evs)).out.filter keep :=
+  strip_parts (runI_strip evs l l rfl)
+
+/-- scope of the run theorems with ICMP events: the base events are in the C06 alphabet `RunG` (everything but hold /
+disconnect), ICMP events may come at any point on any session -/
+def RunGI (l : Msg.L) (evs : List Coap.MsgI.EvI) : Prop := Coap.Sched.RunG l (Coap.MsgI.projI l evs)
+/-- punctuality (no I/O step / submission / arrival after the clock was moved past a pending deadline), the I/O step of
+an ICMP event counted as one -/
+def PunctualI (l : Msg.L) (evs : List Coap.MsgI.EvI) : Prop := Coap.Sim.Punctual l (Coap.MsgI.projI l evs)
+
+instance (l : Msg.L) (evs : List Coap.MsgI.EvI) : Decidable (RunGI l evs) := by unfold RunGI; infer_instance
+instance (l : Msg.L) (evs : List Coap.MsgI.EvI) : Decidable (PunctualI l evs) := by unfold PunctualI; infer_instance
+
+open Coap.Msg Coap.MsgI Coap.Sim Coap.Sched in
+/-- **retransmit_schedule_icmp** (`m_schedule_all` for the alphabet with ICMP events): in every punctual run, every
+transmission `tx t s mid k true` belongs to a `coap_send` of (s, mid) with PRNG byte `r`, its first transmission is in the
+outputs at `t0`, `t = t0 + (2^k − 1)·T`, `T = coap_calc_timeout(parameters of s, r)`, `k ≤ MAX_RETRANSMIT` — ICMP reports
+about the message, however many and whenever, neither shift nor cost nor add a retransmission. -/
+theorem retransmit_schedule_icmp (now0 : Nat) (sess : List Sess) (evs : List EvI)
+    (hs : ∀ se ∈ sess, SessOk se) (hin : RunGI (init now0 sess) evs) (hpu : PunctualI (init now0 sess) evs) :
+    ∀ t s mid k, Out.tx t s mid k true ∈ (runI (init now0 sess) evs).out →
+      ∃ t0 r, EvI.base (.submit s true mid r) ∈ evs ∧
+        Out.tx t0 s mid 0 true ∈ (runI (init now0 sess) evs).out ∧
+        t = sched t0 (calcTimeout (parOf sess s).atI (parOf sess s).atF (parOf sess s).arfI (parOf sess s).arfF r) k ∧
+        k ≤ (parOf sess s).maxRtx := by
+  intro t s mid k hmem
+  have he := (icmp_run_is_base_run (init now0 sess) evs).2.2.2
+  obtain ⟨t0, r, hsub, h0, ht, hk⟩ := m_schedule_all now0 sess _ hs hin hpu t s mid k
+    ((mem_keep_iff he _ rfl).1 hmem)
+  exact ⟨t0, r, projI_mem_base _ _ _ (by intro h; cases h) hsub, (mem_keep_iff he _ rfl).2 h0, ht, hk⟩
+
+open Coap.Msg Coap.MsgI Coap.Sim Coap.Sched in
+/-- **giveup_after_all_retransmissions_icmp**: with ICMP events too, TOO_MANY_RETRIES for (s, mid) is only reported after
+all `MAX_RETRANSMIT + 1` transmissions were made at their slots, and exactly one slot later. -/
+theorem giveup_after_all_retransmissions_icmp (now0 : Nat) (sess : List Sess) (evs : List EvI)
+    (hs : ∀ se ∈ sess, SessOk se) (hin : RunGI (init now0 sess) evs) (hpu : PunctualI (init now0 sess) evs) :
+    ∀ t s mid, Out.nack t s .retries mid true ∈ (runI (init now0 sess) evs).out →
+      ∃ t0 r, EvI.base (.submit s true mid r) ∈ evs ∧
+        (∀ j, j ≤ (parOf sess s).maxRtx →
+          Out.tx (sched t0 (calcTimeout (parOf sess s).atI (parOf sess s).atF (parOf sess s).arfI
+            (parOf sess s).arfF r) j) s mid j true ∈ (runI (init now0 sess) evs).out) ∧
+        t = sched t0 (calcTimeout (parOf sess s).atI (parOf sess s).atF (parOf sess s).arfI (parOf sess s).arfF r)
+          ((parOf sess s).maxRtx + 1) := by
+  intro t s mid hmem
+  have he := (icmp_run_is_base_run (init now0 sess) evs).2.2.2
+  obtain ⟨t0, r, hsub, hall, ht⟩ := m_giveup_after_all_retransmissions now0 sess _ hs hin hpu t s mid
+    ((mem_keep_iff he _ rfl).1 hmem)
+  exact ⟨t0, r, projI_mem_base _ _ _ (by intro h; cases h) hsub, fun j hj => (mem_keep_iff he _ rfl).2 (hall j hj), ht⟩
+
+open Coap.Msg Coap.MsgI Coap.Sim Coap.Sched in
+/-- **single_outcome_icmp** (`m_single_outcome` for the alphabet with ICMP events, every run, punctual or late; only
+TERMINAL reasons are counted — `nackC` counts TOO_MANY_RETRIES / RST about a sent PDU, an ICMP_ISSUE report is none):
+accepted `coap_send`s of the CON (s, mid) = outcome NACKs + silent completions (`remC`: ACK, invalid-code ACK, response
+with its token) + nodes in the send queue + nodes in the delay queue.  A message reported by any number of ICMP errors is
+still exactly one of: pending, waiting for NSTART, concluded ONCE. -/
+theorem single_outcome_icmp (now0 : Nat) (sess : List Sess) (evs : List EvI)
+    (hs : ∀ se ∈ sess, SessOk se) (hin : RunGI (init now0 sess) evs) (s mid : Nat) :
+    let l := runI (init now0 sess) evs
+    accC s mid (init now0 sess) (projI (init now0 sess) evs) =
+      nackC s mid l.out + remC s mid (init now0 sess) (projI (init now0 sess) evs) + pendC s mid l.q.nodes +
+        midC mid (l.getS s).delayq := by
+  intro l
+  obtain ⟨_, hq, hse, ho⟩ := icmp_run_is_base_run (init now0 sess) evs
+  have h := m_single_outcome now0 sess _ hs hin s mid
+  simp only [l, L.getS, hq, hse, nackC_congr ho s mid]
+  simpa only [L.getS] using h
+
+open Coap.Msg Coap.MsgI Coap.Sim Coap.Sched in
+/-- **at_most_max_retransmissions_icmp**: with ICMP events too, transmissions of (s, mid) + remaining budget of its queued /
+delayed nodes ≤ `(MAX_RETRANSMIT + 1)` · accepted sends. -/
+theorem at_most_max_retransmissions_icmp (now0 : Nat) (sess : List Sess) (evs : List EvI)
+    (hs : ∀ se ∈ sess, SessOk se) (hin : RunGI (init now0 sess) evs) (s mid : Nat) :
+    let l := runI (init now0 sess) evs
+    txC s mid l.out + budC s mid (parOf sess s).maxRtx l.q.nodes +
+        ((parOf sess s).maxRtx + 1) * midC mid (l.getS s).delayq ≤
+      ((parOf sess s).maxRtx + 1) * accC s mid (init now0 sess) (projI (init now0 sess) evs) := by
+  intro l
+  obtain ⟨_, hq, hse, ho⟩ := icmp_run_is_base_run (init now0 sess) evs
+  have h := m_at_most_max_retransmissions now0 sess _ hs hin s mid
+  simp only [l, L.getS, hq, hse, txC_congr ho s mid]
+  simpa only [L.getS] using h
+
+open Coap.Msg Coap.MsgI Coap.Sim Coap.Sched in
+/-- **refines_timer_icmp** (S's `retransmit_schedule` / `single_outcome` reach runs with ICMP events through the
+simulation of (6')): the run with ICMP events and the S run over the translation of its projection agree on the pending
+list (deadline, session, mid, T, counter) AS LISTS, on the Confirmable transmissions AS LISTS and on the outcome NACKs AS
+LISTS — an ICMP report is invisible to S. -/
+theorem refines_timer_icmp (now0 : Nat) (sess : List Sess) (evs : List EvI)
+    (hs : ∀ se ∈ sess, SessOk se) (hin : RunGI (init now0 sess) evs) :
+    let l := runI (init now0 sess) evs
+    let ts := Timer.run (Timer.init now0) (SimF.trRun (init now0 sess) (projI (init now0 sess) evs))
+    ts.now ≤ l.now ∧
+    ts.pend.map er = absP (fun s => (parOf sess s).maxRtx) l.q.base l.q.nodes ∧
+    SimF.txsS ts.outs = SimF.txsM l.out ∧ SimF.nksS ts.outs = SimF.nksM l.out := by
+  intro l ts
+  obtain ⟨hn, hq, _, ho⟩ := icmp_run_is_base_run (init now0 sess) evs
+  have h := m_refines_timer now0 sess _ hs hin
+  simp only [l, ts, hn, hq, txsM_congr ho, nksM_congr ho]
+  exact h
+
+open Coap.Msg Coap.MsgI in
+/-- **con_active_eq_inflight_icmp** (C08 (1)/(2) for the alphabet with ICMP events, whole base alphabet incl. hold /
+disconnect): after every event list `con_active` of every session is exactly the number of its nodes in the send queue,
+and at most NSTART — an ICMP report neither frees nor takes a slot. -/
+theorem con_active_eq_inflight_icmp (ss : List Sess) (t0 : Nat) (evs : List EvI) (s : Nat)
+    (hss : ∀ se ∈ ss, se.conActive = 0 ∧ se.delayq = [] ∧ se.nstart ≤ 255) (hs : s < ss.length) :
+    ((runI (init t0 ss) evs).getS s).conActive = inflight (runI (init t0 ss) evs) s ∧
+    inflight (runI (init t0 ss) evs) s ≤ ((runI (init t0 ss) evs).getS s).nstart := by
+  have h := wf_runI evs _ (wf_init t0 ss hss)
+  have h2 := h.2 s (by rw [runI_len]; exact hs)
+  exact ⟨h2.1, h2.2.1⟩
+
+open Coap.Msg Coap.MsgI in
+/-- **held_fifo_exactly_once_icmp** (C08 (4) for the alphabet with ICMP events): along every run the delay queue of every
+session changes only by `DqStep`s (append at the end when held; the head leaves at the moment it is transmitted, once; cleared
+with one NACK per held Confirmable by a session failure) — an ICMP event itself never touches it: held messages stay held,
+in order. -/
+theorem held_fifo_exactly_once_icmp (l : L) (evs : List EvI) (s : Nat) (hs : s < l.sess.length) :
+    Star (DqStep s) l (runI l evs) ∧
+    ∀ s' lg, ((icmpReport l s' lg).getS s).delayq = (l.getS s).delayq := by
+  refine ⟨runI_star evs l s hs, fun s' lg => ?_⟩
+  rw [icmpReport_eq]; rfl
+
+/-- witness run with ICMP events: message 1 (T = 2000, MAX_RETRANSMIT 1), message 2 held by NSTART; ICMP errors while 1 is
+queued (at 500, and at 2000 where the I/O step of the event itself retransmits it), the give-up at 6000 lets 2 in; an ICMP
+error about 2; ACK for 2; an ICMP error with nothing queued -/
+def ievs : List Coap.MsgI.EvI :=
+  [.base (.submit 0 true 1 0), .base (.submit 0 true 2 0), .base (.setNow 500), .icmp 0, .base (.setNow 2000), .icmp 0,
+   .base (.setNow 6000), .base .prepare, .icmp 0, .base (.rxAck 0 2), .icmp 0]
+
+open Coap.Msg Coap.MsgI Coap.Sim Coap.Sched in
+/-- non-vacuity of section (13): `ievs` is in scope and punctual; the reports name message 1 twice, then 2, then nothing
+(`sent = NULL`); message 1 is transmitted at 0 and 2000 and given up at 6000 — its schedule — and message 2 is let in then;
+one accepted send = one outcome NACK for message 1, one silent completion for message 2 -/
+example : (∀ se ∈ [({ maxRtx := 1 } : Sess)], SessOk se) ∧ RunGI (init 0 [{ maxRtx := 1 }]) ievs ∧
+    PunctualI (init 0 [{ maxRtx := 1 }]) ievs ∧
+    (runI (init 0 [{ maxRtx := 1 }]) ievs).out.filter (fun o => match o with | .tx .. => true | .nack .. => true | _ => false) =
+      [.nack 6000 0 .icmp 0 false, .nack 6000 0 .icmp 2 true, .nack 6000 0 .retries 1 true, .tx 6000 0 2 0 true,
+       .tx 2000 0 1 1 true, .nack 2000 0 .icmp 1 true, .nack 500 0 .icmp 1 true, .tx 0 0 1 0 true] ∧
+    accC 0 1 (init 0 [{ maxRtx := 1 }]) (projI (init 0 [{ maxRtx := 1 }]) ievs) = 1 ∧
+    nackC 0 1 (runI (init 0 [{ maxRtx := 1 }]) ievs).out = 1 ∧
+    remC 0 2 (init 0 [{ maxRtx := 1 }]) (projI (init 0 [{ maxRtx := 1 }]) ievs) = 1 ∧
+    (icmpReport (init 0 [{}]) 0 (some 7)).out = [.nack 0 0 .icmp 7 true] := by decide
 
 end Coap.C06
